@@ -522,23 +522,186 @@ def chk_ggrun(args):
     return out, len(a) - 1
 
 
+# ------------------------------------------------------------------ implementation calls of one generated case
+# (each returns plain data; they run inside vlib.guarded, so an exception raised by the code under test becomes a
+#  violation carrying the case, and the protocol lines of a case are only appended when all of its calls succeeded)
+def gen_impl(v):
+    """(A) every formula method at one parameter vector"""
+    sm = set_attrs(SM()(), v, v['tmodel'])
+    with np.errstate(all='ignore'):
+        return [float(x) for x in eval_all(sm, v, v['tmodel'], lambda x: np.array([x], dtype=float))]
+
+
+def contrib_impl(args):
+    """(B)+(C) getStrengthContributions / combineStrengthContributions per phase, precStrength, totalStrength;
+    returns the protocol lines with what the implementation answered"""
+    import random
+    p, allOn, phases, rs, Ls, exps, M = (args[k] for k in ('p', 'allOn', 'phases', 'rs', 'Ls', 'exps', 'M'))
+    nph, npts = len(phases), len(rs)
+    out = []
+    sm = build_model(p, allOn, [(ph['name'], ph['on'], ph['q']) for ph in phases])
+    sm.setTaylorFactor(M); sm.setStrengthSuperpositionExponent(*exps); sm.setBaseStrength(args['sigma0'])
+    pall = vec(sm, p)
+    for ph in phases:
+        with np.errstate(all='ignore'):
+            w, s, o, lab = sm.getStrengthContributions(np.array(rs), np.array(Ls), ph['name'])
+            o_in = o.copy()
+            st, cmp_, (Mw, Ms, Mo) = sm.combineStrengthContributions(w, s, o.copy(), returnComparison=True)
+        w, s = np.asarray(w).reshape(-1, len(rs)), np.asarray(s).reshape(-1, len(rs))
+        out.append(('c18.strength %d %s %s %s %s %s %s %s %s' % (p['tmodel'], f2b(exps[0]), f2b(M), enc_vec(pall), enc_bools(allOn),
+                                                            enc_vec(vec(sm, p, ph['q'])), enc_bools(ph['on']), enc_list(rs), enc_list(Ls)),
+                    ('strength', {'part': 'B', 'phase': ph['name'], **args}, w, s, o_in, st, cmp_, Mw, Ms, lab)))
+
+    class HM:
+        pass
+    hm = HM(); hm.phases = [ph['name'] for ph in phases]
+    # each phase gets its own radii/spacings (permuted entries)
+    pr = random.Random(args['perm_seed'])
+    cols_r, cols_l = [], []
+    for k in range(nph):
+        perm = list(range(npts)); pr.shuffle(perm)
+        cols_r.append([rs[i] for i in perm]); cols_l.append([Ls[i] for i in perm])
+    sm.rss = np.array(cols_r).T.copy(); sm.ls = np.array(cols_l).T.copy()
+    with np.errstate(all='ignore'):
+        prec = sm.precStrength(hm)
+        tot = sm.totalStrength(np.array(args['ss']), prec)
+    ln = 'c18.prec %d %s %s %s %s %s %s %d' % (p['tmodel'], f2b(exps[0]), f2b(exps[1]), f2b(exps[2]), f2b(M), enc_vec(pall), enc_bools(allOn), nph)
+    for k, ph in enumerate(phases):
+        ln += ' %s %s %s %s' % (enc_vec(vec(sm, p, ph['q'])), enc_bools(ph['on']), enc_list(cols_r[k]), enc_list(cols_l[k]))
+    out.append((ln, ('prec', {'part': 'C', **args, 'cols_r': cols_r, 'cols_l': cols_l}, prec)))
+    out.append(('c18.total %s %s %s %s' % (f2b(exps[3]), f2b(args['sigma0']), enc_list(args['ss']), enc_list(prec)),
+                ('total', {'part': 'C', **args}, tot)))
+    return out
+
+
+def hist_impl(a):
+    """(D) one op sequence on a real StrengthModel: 1-3 solve calls x 0-6 host steps of a stand-in host; determined by a['s']"""
+    import random
+    rng = random.Random(a['s'])
+    P = rng.randint(1, 3)
+    nsolve = rng.randint(1, 3)
+    nb = rng.randint(2, 12)
+    r = np.random.default_rng(rng.getrandbits(32))
+    sm = SM()()
+    sm.setSolidSolutionStrength({'A': rng.uniform(1e7, 1e9), 'C': rng.uniform(1e7, 1e9)}, rng.choice([1, 2 / 3, 0.5]))
+
+    class PB:
+        pass
+
+    class PD:
+        pass
+
+    class HM:
+        pass
+    hm = HM(); hm.phases = ['p%d' % k for k in range(P)]; hm.elements = ['A', 'B', 'C']
+    hm.PBM = [PB() for _ in range(P)]
+    for pb in hm.PBM:
+        pb.PSDsize = np.sort(10 ** r.uniform(-10, -7, nb)); pb.PSD = np.zeros(nb)
+    hm.pData = PD(); hm.pData.n = 0
+    comp = [r.uniform(0, 0.1, 3)]
+    seq_steps, total = [], 0
+    for sc in range(nsolve):
+        ns = rng.randint(0, 6)
+        steps = []
+        for k in range(ns):
+            for pb in hm.PBM:
+                kind = rng.choice(['empty', 'pop', 'pop', 'single'])
+                pb.PSD = np.zeros(nb) if kind == 'empty' else 10 ** r.uniform(5, 25, nb) if kind == 'pop' else np.eye(nb)[r.integers(0, nb)] * 1e20
+            comp.append(r.uniform(0, 0.1, 3))
+            hm.pData.n += 1
+            hm.pData.composition = np.array(comp)
+            sm.updateCoupledModel(hm)
+            steps.append((float(sm.solidStrength[-1]), [(pb.PSD.copy(), pb.PSDsize.copy()) for pb in hm.PBM]))
+            total += 1
+        seq_steps.append(steps)
+    none = sm.rss is None
+    return dict(P=P, nsolve=nsolve, seq_steps=seq_steps, total=total, n_rows=0 if none else int(sm.rss.shape[0]),
+                ls_rows=0 if none else int(sm.ls.shape[0]), ss_rows=0 if none else len(sm.solidStrength),
+                rss=None if none else np.array(sm.rss, dtype=float), ls=None if none else np.array(sm.ls, dtype=float),
+                ss=None if none else [float(x) for x in sm.solidStrength])
+
+
+def chk_hist(a):
+    h = hist_impl(a)
+    out = []
+    want = 0 if h['total'] == 0 else h['total'] + 1
+    if not (h['n_rows'] == want and h['ls_rows'] == want and h['ss_rows'] == want):
+        out.append(('history-length', 'strength history has %d/%d/%d rows (rss/ls/ss) after %d host steps in %d solve calls'
+                    % (h['n_rows'], h['ls_rows'], h['ss_rows'], h['total'], h['nsolve']), [h['n_rows'], h['ls_rows'], h['ss_rows']], want))
+    if h['rss'] is not None and (np.any(h['rss'] < 0) or np.any(h['ls'] < 0) or not np.all(np.isfinite(h['rss'])) or not np.all(np.isfinite(h['ls']))):
+        out.append(('history-values', 'rss / Ls history has a negative or non-finite entry', None, '>= 0, finite'))
+    return out, h
+
+
+def gg_case(a):
+    """(E) grain distribution, unconstrained growth field and drag level of one case (drag from a['zkind'], a['zf'])"""
+    g = make_gg(a)
+    size, bounds = g.pbm.PSDsize.copy(), g.pbm.PSDbounds.copy()
+    x = gg_psd(a, size)
+    with np.errstate(all='ignore'):
+        gr = np.asarray(g.grainGrowth(x), dtype=float)
+    finite = bool(np.all(np.isfinite(gr)))
+    gmax = float(np.max(np.abs(gr))) if finite else 1e-9
+    amg = a['alpha'] * a['M'] * a['gbe']
+    z = {'none': 0.0, 'weak': 0.05, 'medium': a['zf'][0], 'strong': a['zf'][1], 'exact': 1.0}[a['zkind']] * gmax / amg
+    gin = gr if finite else np.array([1e-9, -1e-9, 0.0])
+    return g, size, bounds, x, gr, finite, amg, z, gin
+
+
+def gg_impl(a):
+    """(E) constrainedGrowth, Normalize / Rm, grainGrowth / getdXdt on one case; returns protocol lines + answers"""
+    g, size, bounds, x, gr, finite, amg, z, gin = gg_case(a)
+    a2 = dict(a, z=z, g=[float(v) for v in gin])
+    out = []
+    cG = np.asarray(g.constrainedGrowth(gin.copy(), z), dtype=float)
+    near = any(abs(abs(v) - amg * z) <= 1e-9 * abs(v) for v in gin) and z > 0
+    out.append(('c18.cg %s %s %s %s %s' % (f2b(a['alpha']), f2b(a['M']), f2b(a['gbe']), f2b(z), enc_list(gin)), ('cg', {'part': 'E', **a2}, cG, near)))
+    g.pbm.PSD = x.copy()
+    rm_b = float(g.Rm(g.pbm.PSD))
+    g.Normalize()
+    xn = g.pbm.PSD.copy()
+    out.append(('c18.norm %s %s' % (enc_list(x), enc_list(size)), ('norm', {'part': 'E', **a, 'z': z}, xn, float(g.pbm.ThirdMoment()), rm_b)))
+    if finite:
+        g._z = z
+        d = np.asarray(g.getdXdt(0.0, [x.copy()])[0], dtype=float)
+        rate = np.asarray(g._growthRate, dtype=float)
+        nearr = (any(abs(abs(v) - amg * z) <= 1e-9 * abs(v) for v in gr) and z > 0) or bool(np.any(rate == 0) and z == 0)
+        out.append(('c18.gg %s %s %s %s %s %s %s' % (f2b(a['alpha']), f2b(a['M']), f2b(a['gbe']), f2b(z), enc_list(x), enc_list(size), enc_list(bounds)),
+                    ('gg', {'part': 'E', **a, 'z': z}, gr, rate, d, g.pbm._netFlux.copy(), nearr)))
+    return out
+
+
+def chk_coupled(args):
+    r = Result()
+    coupled_run(r, args, False, None)
+    return [(v['key'], v['what'], v['observed'], v['required']) for v in r.violations]
+
+
 CHECKS = {'strength': chk_strength, 'limits': chk_limits, 'zener': chk_zener, 'normalize': chk_normalize,
-          'ggrun': lambda a: chk_ggrun(a)[0]}
+          'ggrun': lambda a: chk_ggrun(a)[0], 'gen': lambda v: (gen_impl(v), [])[1], 'contrib': lambda a: (contrib_impl(a), [])[1],
+          'hist': lambda a: chk_hist(a)[0], 'ggcalls': lambda a: (gg_impl(a), [])[1], 'ggcase': lambda a: (gg_case(a), [])[1],
+          'coupled': chk_coupled}
 
 
 def apply_check(res, kind, args):
-    try:
-        out = CHECKS[kind](args)
-    except Exception as e:
-        out = [('raises:%s' % kind, 'real code raised %r' % (e,), None, 'no exception')]
+    """oracle predicate of one case inside its own guard"""
+    ok, out = vlib.guarded(res, kind, {'chk': kind, 'args': args}, CHECKS[kind], args)
+    if not ok:
+        return None
     for key, what, obs, req in out[:3]:
         res.violate(key, what, {'chk': kind, 'args': args}, obs, req)
     return out
 
 
 # ------------------------------------------------------------------ the real coupled run
-def coupled_run(res, ctx, use_model):
-    """Al-Zr precipitation with a StrengthModel and a GrainGrowthModel attached; two solve calls"""
+def coupled_args(ctx):
+    return dict(seed=ctx.seed, mob=10 ** ctx.rng.uniform(-13.5, -12.5),      # several grain-growth sub-steps per late host step
+                t1=ctx.rng.uniform(3.0, 10.0), t2=ctx.n(ctx.rng.uniform(20.0, 100.0), ctx.rng.uniform(500.0, 3000.0)),
+                cap=ctx.n(600, 4000), nsample=ctx.n(40, 400), pick=ctx.rng.getrandbits(32))
+
+
+def coupled_impl(a):
+    """the implementation side of (F): build, attach, two solve calls, strength over the recorded history"""
     import kwnruns
     vlib.use_repo()
     m = kwnruns.build_binary(x0=6e-3, T=823.15)      # nucleation sets in within ~30 host steps
@@ -552,8 +715,7 @@ def coupled_run(res, ctx, use_model):
     sm.setSolidSolutionStrength({'ZR': 8e8}, 1)
     sm.setBaseStrength(1e7)
     gg = GG()(1e-7, 1e-5, 60, 40, 80)
-    gg.setGrainBoundaryMobility(10 ** ctx.rng.uniform(-13.5, -12.5))      # several grain-growth sub-steps per late host step
-    size = gg.pbm.PSDsize
+    gg.setGrainBoundaryMobility(a['mob'])
     gg.LoadDistributionFunction(lambda R: np.exp(-0.5 * ((np.log(R) - math.log(2e-6)) / 0.3) ** 2) / R)
     m.addCouplingModel(sm)
     m.addCouplingModel(gg)
@@ -561,26 +723,39 @@ def coupled_run(res, ctx, use_model):
 
     def obs(host):
         n = host.pData.n
-        rows.append(dict(n=int(n), t=float(host.pData.time[n]), slen=0 if sm.rss is None else int(sm.rss.shape[0]),
+        none = sm.rss is None
+        rows.append(dict(n=int(n), t=float(host.pData.time[n]), slen=0 if none else int(sm.rss.shape[0]),
                          sslen=0 if sm.solidStrength is None else len(sm.solidStrength), lslen=0 if sm.ls is None else int(sm.ls.shape[0]),
                          ggt=float(gg.time[-1]), ggR=float(gg.avgR[-1]), z=float(gg._z), m3=float(gg.pbm.ThirdMoment()),
                          psd=host.PBM[0].PSD.copy(), size=host.PBM[0].PSDsize.copy(),
-                         rss=float(sm.rss[-1, 0]), ls=float(sm.ls[-1, 0]), ss=float(sm.solidStrength[-1]),
+                         rss=float('nan') if none else float(sm.rss[-1, 0]), ls=float('nan') if none else float(sm.ls[-1, 0]),
+                         ss=float('nan') if none else float(sm.solidStrength[-1]),
                          comp=float(host.pData.composition[n, 0])))
-        if len(rows) >= cap:          # safety cap on the run length (the step size of a fresh solve call varies)
+        if len(rows) >= a['cap']:          # safety cap on the run length (the step size of a fresh solve call varies)
             raise kwnruns.StopRun()
-    cap = ctx.n(600, 4000)
-    t1 = ctx.rng.uniform(3.0, 10.0)
-    t2 = ctx.n(ctx.rng.uniform(20.0, 100.0), ctx.rng.uniform(500.0, 3000.0))
-    kwnruns.run(m, t1, observer=obs)          # the observer slot is registered once and stays for later solve calls
+    kwnruns.run(m, a['t1'], observer=obs)          # the observer slot is registered once and stays for later solve calls
     n1 = len(rows)
-    kwnruns.run(m, t2)
+    kwnruns.run(m, a['t2'])
     n2 = len(rows) - n1
+    with np.errstate(all='ignore'):
+        prec = sm.precStrength(m) if sm.rss is not None else np.zeros(0)
+        tot = sm.totalStrength(sm.solidStrength, prec) if sm.rss is not None else np.zeros(0)
+    return dict(m=m, sm=sm, gg=gg, rows=rows, n1=n1, n2=n2, prec=np.asarray(prec, dtype=float), tot=np.asarray(tot, dtype=float))
+
+
+def coupled_run(res, a, use_model, _unused=None):
+    """Al-Zr precipitation with a StrengthModel and a GrainGrowthModel attached; two solve calls"""
+    case = {'chk': 'coupled', 'args': a}
+    ok, R = vlib.guarded(res, 'coupled-run', case, coupled_impl, a)
+    if not ok:
+        return [], []
+    m, sm, gg, rows, n1, n2, prec, tot = (R[k] for k in ('m', 'sm', 'gg', 'rows', 'n1', 'n2', 'prec', 'tot'))
     steps = len(rows)
-    res.extra['coupled_run'] = {'host_steps': steps, 'solve_calls': [n1, n2], 'sim_time': [t1, t2], 'gg_substeps': int(len(gg.time) - 1),
+    nhost = int(m.pData.n) + 1
+    srows = 0 if sm.rss is None else int(sm.rss.shape[0])
+    res.extra['coupled_run'] = {'host_steps': steps, 'solve_calls': [n1, n2], 'sim_time': [a['t1'], a['t2']], 'gg_substeps': int(len(gg.time) - 1),
                                 'final_rss': rows[-1]['rss'] if rows else None, 'final_grain_radius': rows[-1]['ggR'] if rows else None}
     res.count('F:host-steps', steps)
-    case = {'chk': 'coupled', 'args': {'seed': ctx.seed, 't1': t1, 't2': t2}}
     # --- direct oracle on the histories
     for k, r in enumerate(rows):
         if r['n'] != k + 1:
@@ -594,30 +769,30 @@ def coupled_run(res, ctx, use_model):
             res.violate('coupled-zener-drag', 'Zener drag computed from the host is %r after host step %d' % (r['z'], r['n']), case, r['z'], '>= 0, finite'); break
         if not close(r['m3'], 1.0, 1e-9):
             res.violate('coupled-grain-volume', 'grain volume %r after host step %d' % (r['m3'], r['n']), case, r['m3'], 1.0); break
-    if rows and (len(m.pData.time[:m.pData.n + 1]) != sm.rss.shape[0]):
-        res.violate('strength-history-misaligned', 'final strength history length %d vs host history %d' % (sm.rss.shape[0], m.pData.n + 1), case)
-    hm = m
-    with np.errstate(all='ignore'):
-        prec = sm.precStrength(hm)
-        tot = sm.totalStrength(sm.solidStrength, prec)
-    if len(prec) != m.pData.n + 1 or not np.all(np.isfinite(prec)) or np.any(prec < 0):
-        i = int(np.nonzero(~np.isfinite(prec) | (prec < 0))[0][0]) if len(prec) == m.pData.n + 1 else -1
-        res.violate('coupled-precStrength', 'precipitate strength over the coupled run is negative/non-finite at row %d: %r (rss=%r, ls=%r)'
-                    % (i, float(prec[i]), float(sm.rss[i, 0]), float(sm.ls[i, 0])), case, float(prec[i]), '>= 0, finite')
-    elif not np.all(np.isfinite(tot)) or np.any(tot < np.maximum(prec, sm.solidStrength) * (1 - 1e-12)):
+    if rows and nhost != srows:
+        res.violate('strength-history-misaligned', 'final strength history length %d vs host history %d' % (srows, nhost), case, srows, nhost)
+    if len(prec) != nhost or not np.all(np.isfinite(prec)) or np.any(prec < 0):
+        if len(prec) == nhost and srows == nhost:
+            i = int(np.nonzero(~np.isfinite(prec) | (prec < 0))[0][0])
+            res.violate('coupled-precStrength', 'precipitate strength over the coupled run is negative/non-finite at row %d: %r (rss=%r, ls=%r)'
+                        % (i, float(prec[i]), float(sm.rss[i, 0]), float(sm.ls[i, 0])), case, float(prec[i]), '>= 0, finite')
+        else:
+            res.violate('coupled-precStrength', 'precStrength has %d entries for %d host rows' % (len(prec), nhost), case, len(prec), nhost)
+    elif len(tot) != nhost or not np.all(np.isfinite(tot)) or np.any(tot < np.maximum(prec, np.asarray(sm.solidStrength, dtype=float)) * (1 - 1e-12)):
         res.violate('coupled-totalStrength', 'total strength over the coupled run is non-finite or below a part', case)
-    gR = np.asarray(gg.avgR, dtype=float)
     free = [k for k, r in enumerate(rows) if r['z'] == 0]
     res.count('F:host-steps-without-pinning', len(free))
     res.count('F:host-steps-subcore-radius', sum(1 for r in rows if 0 < 2 * r['rss'] < float(sm.ri)))
     res.count('F:grain-growth-substeps', int(len(gg.time) - 1))
-    res.case(('F', ctx.seed, steps), steps > 100 and n1 > 0 and n2 > 0)
+    res.case(('F', a['seed'], steps), steps > 100 and n1 > 0 and n2 > 0)
     res.traces += 1
     res.sample({'part': 'F', 'host_steps': steps, 'solve_calls': [n1, n2], 'final': {k: rows[-1][k] for k in ('t', 'ggt', 'rss', 'ls', 'ggR', 'z')} if rows else None})
     # --- refinement: rows of the strength history and the clock vs the model
     lines, after = [], []
-    if use_model and rows:
-        idx = sorted(set([0, 1, 2, len(rows) - 1] + [ctx.rng.randrange(len(rows)) for _ in range(ctx.n(40, 400))]))
+    if use_model and rows and srows == steps + 1:
+        import random
+        pk = random.Random(a['pick'])
+        idx = sorted(set([0, 1, 2, len(rows) - 1] + [pk.randrange(len(rows)) for _ in range(a['nsample'])]))
         for k in idx:
             if k < len(rows):
                 r = rows[k]
@@ -642,12 +817,16 @@ def corr(ctx, oracle_only=False, scale=1, skip_run=False):
                 '(B) per phase: random parameters x global/phase-specific enable flags x (r, Ls) arrays with empty / sub-core / core / typical / large / zero-spacing entries; '
                 '(C) 1-3 phases precStrength + totalStrength; (D) history op sequences (1-3 solve calls x 0-6 host steps, empty and populated PSDs); '
                 '(E) grain growth: random size grids x distribution kind x drag level, standalone runs; (F) one real coupled Al-Zr run. '
-                'non-trivial = at least one enabled contribution and one entry with precipitates (B,C) / populated distribution (D,E); distinct = full case tuple')
+                'non-trivial = at least one enabled contribution and one entry with precipitates (B,C) / populated distribution (D,E); distinct = full case tuple. '
+                'Every case runs in its own guard: an exception raised by the code under test is a violation raises:<call site>:<type> with the case, the run goes on')
     res.monitored = list(MONITORED)
     rng = ctx.rng
-    S = SM()
     use_model = ctx.driver_ok and not oracle_only
     lines, after = [], []
+
+    def take(pairs):
+        for ln, aft in pairs:
+            lines.append(ln); after.append(aft)
 
     # ---------------- (A) translator validation
     for _ in range(ctx.n(400, 24000) * scale):
@@ -659,14 +838,13 @@ def corr(ctx, oracle_only=False, scale=1, skip_run=False):
                  J=rng.choice([1.0, rng.uniform(0.7, 1.3)]), r=rs[0] if rs[0] > 0 else 1e-9, Ls=Ls[0] if Ls[0] > 0 else 3e-8)
         v['r0'] = v['Ls'] * rng.choice([1.0, 1.4142, rng.uniform(0.5, 3)])
         group = p['tmodel']
-        sm = set_attrs(S(), v, group)
-        with np.errstate(all='ignore'):
-            impl = [float(x) for x in eval_all(sm, v, group, lambda x: np.array([x], dtype=float))]
+        ok, impl = vlib.guarded(res, 'formulas', {'chk': 'gen', 'args': v}, gen_impl, v)
+        if not ok:
+            continue
         res.case(('A', group) + tuple(v[k] for k in PARAMS), True)
         res.count('A:group%d' % group)
         if use_model:
-            lines.append('c18.gen %d %s' % (group, enc_vec([v[k] for k in PARAMS])))
-            after.append(('gen', {'part': 'A', 'group': group, **{k: v[k] for k in PARAMS}}, impl))
+            take([('c18.gen %d %s' % (group, enc_vec([v[k] for k in PARAMS])), ('gen', {'part': 'A', 'group': group, **{k: v[k] for k in PARAMS}}, impl))])
 
     # ---------------- (B)+(C) contributions, combination, multi-phase and total strength
     for _ in range(ctx.n(300, 20000) * scale):
@@ -684,49 +862,26 @@ def corr(ctx, oracle_only=False, scale=1, skip_run=False):
         exps = [rng.choice([1.8, 1.0, 2.0, rng.uniform(1, 3)]), rng.choice([1.8, rng.uniform(1, 3)]), rng.choice([1.4, rng.uniform(1, 3)]), rng.choice([1.8, 1.0, rng.uniform(1, 3)])]
         M = rng.choice([2.24, 1.0, 3.06])
         args = dict(p=p, allOn=allOn, phases=phases, rs=rs, Ls=Ls, exps=exps, M=M, sigma0=rng.choice([0.0, 10 ** rng.uniform(6, 8)]),
-                    ss=[rng.choice([0.0, 10 ** rng.uniform(5, 8)]) for _ in rs])
+                    ss=[rng.choice([0.0, 10 ** rng.uniform(5, 8)]) for _ in rs], perm_seed=rng.getrandbits(32))
         any_on = any(allOn) or any(any(ph['on']) for ph in phases)
+        checked = apply_check(res, 'strength', args) is not None
+        pairs = None
+        if use_model and checked:
+            ok, pairs = vlib.guarded(res, 'strength-calls', {'chk': 'contrib', 'args': args}, contrib_impl, args)
+            if not ok:
+                continue
+        if not checked:
+            continue
         res.case(('BC', repr(sorted(p.items())), tuple(allOn), tuple(tuple(ph['on']) for ph in phases), tuple(rs), tuple(Ls)),
                  any_on and any(r > 0 and L > 0 for r, L in zip(rs, Ls)))
         for r, L in zip(rs, Ls):
             res.count('B:' + klass(r, L, p['ri']))
         res.count('C:phases=%d' % nph)
         res.count('B:global+phase' if any(allOn) and any(any(ph['on']) for ph in phases) else 'B:global-only' if any(allOn) else 'B:phase-only' if any_on else 'B:nothing-enabled')
-        apply_check(res, 'strength', args)
         if len(res.samples) < 2:
             res.sample({'part': 'B', 'allOn': allOn, 'phaseOn': [ph['on'] for ph in phases], 'rs': rs, 'Ls': Ls, 'ri': p['ri']})
-        if use_model:
-            sm = build_model(p, allOn, [(ph['name'], ph['on'], ph['q']) for ph in phases])
-            sm.setTaylorFactor(M); sm.setStrengthSuperpositionExponent(*exps); sm.setBaseStrength(args['sigma0'])
-            pall = vec(sm, p)
-            for ph in phases:
-                with np.errstate(all='ignore'):
-                    w, s, o, lab = sm.getStrengthContributions(np.array(rs), np.array(Ls), ph['name'])
-                    o_in = o.copy()
-                    st, cmp_, (Mw, Ms, Mo) = sm.combineStrengthContributions(w, s, o.copy(), returnComparison=True)
-                w, s = np.asarray(w).reshape(-1, len(rs)), np.asarray(s).reshape(-1, len(rs))
-                lines.append('c18.strength %d %s %s %s %s %s %s %s %s' % (p['tmodel'], f2b(exps[0]), f2b(M), enc_vec(pall), enc_bools(allOn),
-                                                                     enc_vec(vec(sm, p, ph['q'])), enc_bools(ph['on']), enc_list(rs), enc_list(Ls)))
-                after.append(('strength', {'part': 'B', 'phase': ph['name'], **args}, w, s, o_in, st, cmp_, Mw, Ms, lab))
-
-            class HM:
-                pass
-            hm = HM(); hm.phases = [ph['name'] for ph in phases]
-            # each phase gets its own radii/spacings (permuted entries)
-            cols_r, cols_l = [], []
-            for k in range(nph):
-                perm = list(range(npts)); rng.shuffle(perm)
-                cols_r.append([rs[i] for i in perm]); cols_l.append([Ls[i] for i in perm])
-            sm.rss = np.array(cols_r).T.copy(); sm.ls = np.array(cols_l).T.copy()
-            with np.errstate(all='ignore'):
-                prec = sm.precStrength(hm)
-                tot = sm.totalStrength(np.array(args['ss']), prec)
-            ln = 'c18.prec %d %s %s %s %s %s %s %d' % (p['tmodel'], f2b(exps[0]), f2b(exps[1]), f2b(exps[2]), f2b(M), enc_vec(pall), enc_bools(allOn), nph)
-            for k, ph in enumerate(phases):
-                ln += ' %s %s %s %s' % (enc_vec(vec(sm, p, ph['q'])), enc_bools(ph['on']), enc_list(cols_r[k]), enc_list(cols_l[k]))
-            lines.append(ln); after.append(('prec', {'part': 'C', **args, 'cols_r': cols_r, 'cols_l': cols_l}, prec))
-            lines.append('c18.total %s %s %s %s' % (f2b(exps[3]), f2b(args['sigma0']), enc_list(args['ss']), enc_list(prec)))
-            after.append(('total', {'part': 'C', **args}, tot))
+        if pairs:
+            take(pairs)
 
     # edge / screw limits on the real functions
     for _ in range(ctx.n(80, 4000) * scale):
@@ -734,68 +889,33 @@ def corr(ctx, oracle_only=False, scale=1, skip_run=False):
         rs = [10 ** rng.uniform(-9, -6.5) for _ in range(5)]
         Ls = [10 ** rng.uniform(-8.3, -5.5) for _ in range(5)]
         args = dict(p=p, rs=rs, Ls=Ls)
+        if apply_check(res, 'limits', args) is None:
+            continue
         res.case(('lim', repr(sorted(p.items())), tuple(rs)), True)
         res.count('B:limits')
-        apply_check(res, 'limits', args)
 
     # ---------------- (D) history sequences
     for _ in range(ctx.n(150, 10000) * scale):
-        P = rng.randint(1, 3)
-        nsolve = rng.randint(1, 3)
-        nb = rng.randint(2, 12)
-        r = np.random.default_rng(rng.getrandbits(32))
-        sm = S()
-        sm.setSolidSolutionStrength({'A': rng.uniform(1e7, 1e9), 'C': rng.uniform(1e7, 1e9)}, rng.choice([1, 2 / 3, 0.5]))
-
-        class PB:
-            pass
-
-        class PD:
-            pass
-
-        class HM:
-            pass
-        hm = HM(); hm.phases = ['p%d' % k for k in range(P)]; hm.elements = ['A', 'B', 'C']
-        hm.PBM = [PB() for _ in range(P)]
-        for pb in hm.PBM:
-            pb.PSDsize = np.sort(10 ** r.uniform(-10, -7, nb)); pb.PSD = np.zeros(nb)
-        hm.pData = PD(); hm.pData.n = 0
-        comp = [r.uniform(0, 0.1, 3)]
-        ss0 = None
-        seq_steps, total = [], 0
-        for sc in range(nsolve):
-            ns = rng.randint(0, 6)
-            steps = []
-            for k in range(ns):
-                for pb in hm.PBM:
-                    kind = rng.choice(['empty', 'pop', 'pop', 'single'])
-                    pb.PSD = np.zeros(nb) if kind == 'empty' else 10 ** r.uniform(5, 25, nb) if kind == 'pop' else np.eye(nb)[r.integers(0, nb)] * 1e20
-                comp.append(r.uniform(0, 0.1, 3))
-                hm.pData.n += 1
-                hm.pData.composition = np.array(comp)
-                sm.updateCoupledModel(hm)
-                steps.append((float(sm.solidStrength[-1]), [(pb.PSD.copy(), pb.PSDsize.copy()) for pb in hm.PBM]))
-                total += 1
-            seq_steps.append(steps)
-        n_rows = 0 if sm.rss is None else sm.rss.shape[0]
-        res.case(('D', P, nsolve, tuple(len(s) for s in seq_steps), rng.getrandbits(20)), total > 0)
-        res.count('D:solve-calls=%d' % nsolve); res.count('D:host-steps', total)
-        want = 0 if total == 0 else total + 1
-        if n_rows != want or (sm.rss is not None and not (sm.ls.shape[0] == want and len(sm.solidStrength) == want)):
-            res.violate('history-length', 'strength history has %d rows after %d host steps in %d solve calls' % (n_rows, total, nsolve),
-                        {'chk': 'hist', 'args': {'P': P, 'steps': [len(s) for s in seq_steps]}}, n_rows, want)
-        if sm.rss is not None and (np.any(sm.rss < 0) or np.any(sm.ls < 0) or not np.all(np.isfinite(sm.rss)) or not np.all(np.isfinite(sm.ls))):
-            res.violate('history-values', 'rss / Ls history has a negative or non-finite entry', {'chk': 'hist', 'args': {'P': P}}, None, '>= 0, finite')
-        if use_model and total > 0:
-            ln = 'c18.histpsd %d %s %d' % (P, f2b(float(sm.solidStrength[0])), nsolve)
-            for steps in seq_steps:
+        a = {'s': rng.getrandbits(48)}
+        case = {'chk': 'hist', 'args': a}
+        ok, val = vlib.guarded(res, 'strength-history', case, chk_hist, a)
+        if not ok:
+            continue
+        out, h = val
+        for key, what, obs, req in out[:3]:
+            res.violate(key, what, case, obs, req)
+        res.case(('D', h['P'], h['nsolve'], tuple(len(s) for s in h['seq_steps']), a['s']), h['total'] > 0)
+        res.count('D:solve-calls=%d' % h['nsolve']); res.count('D:host-steps', h['total'])
+        if use_model and h['total'] > 0 and not out:
+            ln = 'c18.histpsd %d %s %d' % (h['P'], f2b(h['ss'][0]), h['nsolve'])
+            for steps in h['seq_steps']:
                 ln += ' %d' % len(steps)
                 for ss, pbs in steps:
                     ln += ' ' + f2b(ss)
                     for psd, size in pbs:
                         ln += ' %s %s' % (enc_list(psd), enc_list(size))
-            lines.append(ln)
-            after.append(('hist', {'part': 'D', 'P': P, 'steps': [len(s) for s in seq_steps]}, n_rows, sm.rss.ravel().tolist(), sm.ls.ravel().tolist(), list(sm.solidStrength)))
+            take([(ln, ('hist', {'part': 'D', 'P': h['P'], 'steps': [len(s) for s in h['seq_steps']], **a}, h['n_rows'],
+                        h['rss'].ravel().tolist(), h['ls'].ravel().tolist(), h['ss']))])
 
     # ---------------- (E) grain growth
     for _ in range(ctx.n(400, 30000) * scale):
@@ -803,46 +923,28 @@ def corr(ctx, oracle_only=False, scale=1, skip_run=False):
         a = dict(cMin=cMin, cMax=cMin * rng.choice([10, 30, 100]), bins=rng.choice([3, 8, 20, 60, 150]),
                  gbe=rng.uniform(0.1, 1.0), M=10 ** rng.uniform(-16, -12), alpha=rng.choice([1.0, rng.uniform(0.3, 3)]),
                  dist=rng.choice(['lognormal', 'lognormal', 'sparse', 'single', 'uniform', 'wild']), pos=rng.uniform(0.1, 0.9), width=rng.uniform(0.1, 0.6),
-                 s=rng.getrandbits(32))
-        g = make_gg(a)
-        n = a['bins']
-        size, bounds = g.pbm.PSDsize.copy(), g.pbm.PSDbounds.copy()
-        x = gg_psd(a, size)
-        with np.errstate(all='ignore'):
-            gr = np.asarray(g.grainGrowth(x), dtype=float)
-        finite = bool(np.all(np.isfinite(gr)))
-        gmax = float(np.max(np.abs(gr))) if finite else 1e-9
-        amg = a['alpha'] * a['M'] * a['gbe']
-        zkind = rng.choice(['none', 'weak', 'medium', 'strong', 'exact'])
-        z = {'none': 0.0, 'weak': 0.05 * gmax / amg, 'medium': rng.uniform(0.2, 0.9) * gmax / amg, 'strong': rng.uniform(1.0, 5.0) * gmax / amg,
-             'exact': gmax / amg}[zkind]
-        a['z'] = z
-        gin = gr if finite else np.array([1e-9, -1e-9, 0.0])
-        a2 = dict(a, g=[float(v) for v in gin])
-        res.case(('E', a['dist'], zkind, n, a['s']), x.max() > 0)
-        res.count('E:dist:' + a['dist']); res.count('E:drag:' + zkind)
-        apply_check(res, 'zener', a2)
-        apply_check(res, 'normalize', a)
+                 s=rng.getrandbits(32), zkind=rng.choice(['none', 'weak', 'medium', 'strong', 'exact']), zf=[rng.uniform(0.2, 0.9), rng.uniform(1.0, 5.0)])
+        ok, val = vlib.guarded(res, 'grain-growth-setup', {'chk': 'ggcase', 'args': a}, gg_case, a)
+        if not ok:
+            continue
+        g, size, bounds, x, gr, finite, amg, z, gin = val
+        a1 = dict(a, z=z)
+        a2 = dict(a1, g=[float(v) for v in gin])
+        c1 = apply_check(res, 'zener', a2)
+        c2 = apply_check(res, 'normalize', a1)
+        pairs = None
+        if use_model and c1 is not None and c2 is not None:
+            ok, pairs = vlib.guarded(res, 'grain-growth-calls', {'chk': 'ggcalls', 'args': a}, gg_impl, a)
+            if not ok:
+                continue
+        if c1 is None or c2 is None:
+            continue
+        res.case(('E', a['dist'], a['zkind'], a['bins'], a['s']), x.max() > 0)
+        res.count('E:dist:' + a['dist']); res.count('E:drag:' + a['zkind'])
         if len(res.samples) < 3:
-            res.sample({'part': 'E', **a})
-        if use_model:
-            cG = np.asarray(g.constrainedGrowth(gin.copy(), z), dtype=float)
-            lines.append('c18.cg %s %s %s %s %s' % (f2b(a['alpha']), f2b(a['M']), f2b(a['gbe']), f2b(z), enc_list(gin)))
-            near = any(abs(abs(v) - amg * z) <= 1e-9 * abs(v) for v in gin) and z > 0
-            after.append(('cg', {'part': 'E', **a2}, cG, near))
-            g.pbm.PSD = x.copy()
-            rm_b = float(g.Rm(g.pbm.PSD))
-            g.Normalize()
-            xn = g.pbm.PSD.copy()
-            lines.append('c18.norm %s %s' % (enc_list(x), enc_list(size)))
-            after.append(('norm', {'part': 'E', **a}, xn, float(g.pbm.ThirdMoment()), rm_b))
-            if finite:
-                g._z = z
-                d = np.asarray(g.getdXdt(0.0, [x.copy()])[0], dtype=float)
-                rate = np.asarray(g._growthRate, dtype=float)
-                nearr = (any(abs(abs(v) - amg * z) <= 1e-9 * abs(v) for v in gr) and z > 0) or bool(np.any(rate == 0) and z == 0)
-                lines.append('c18.gg %s %s %s %s %s %s %s' % (f2b(a['alpha']), f2b(a['M']), f2b(a['gbe']), f2b(z), enc_list(x), enc_list(size), enc_list(bounds)))
-                after.append(('gg', {'part': 'E', **a}, gr, rate, d, g.pbm._netFlux.copy(), nearr))
+            res.sample({'part': 'E', **a1})
+        if pairs:
+            take(pairs)
     # standalone runs (clock over repeated solve calls, volume, MONITORED mean size)
     for it in range(ctx.n(4, 150) * scale + 1):
         cMin = 10 ** rng.uniform(-7.5, -6.5)
@@ -852,26 +954,30 @@ def corr(ctx, oracle_only=False, scale=1, skip_run=False):
         a['dt'] = rng.uniform(0.05, 0.4) * Rtyp ** 2 / (a['M'] * a['gbe'])
         if it == 0:   # fixed wide distribution: its first upwind step loses grain volume (known finding gg-mean-size-dip-volume-drift)
             a = dict(cMin=1e-7, cMax=1e-5, bins=150, minBins=75, maxBins=300, gbe=0.5, M=1e-14, alpha=1.0, pos=0.192, center=2e-6, width=0.5, calls=2, euler=True, dt=20.0)
-        try:
-            out, nst = chk_ggrun(a)
-        except Exception as e:
-            out, nst = [('raises:ggrun', 'real code raised %r' % (e,), None, None)], 0
+        case = {'chk': 'ggrun', 'args': a}
+        ok, val = vlib.guarded(res, 'grain-growth-run', case, chk_ggrun, a)
+        if not ok:
+            continue
+        out, nst = val
         for key, what, obs, req in out[:3]:
-            res.violate(key, what, {'chk': 'ggrun', 'args': a}, obs, req)
+            res.violate(key, what, case, obs, req)
         res.case(('Erun', a['bins'], a['M'], a['dt']), nst > a['calls'])
         res.count('E:standalone-steps', nst)
         res.traces += 1
 
     # ---------------- (F) real coupled run
     if not skip_run:
-        l2, a2 = coupled_run(res, ctx, use_model)
-        lines += l2; after += a2
+        ok, val = vlib.guarded(res, 'coupled-harness', None, coupled_run, res, coupled_args(ctx), use_model)
+        if ok:
+            take(list(zip(val[0], val[1])))
 
     # ---------------- model answers
     if use_model and lines:
-        model = vlib.run_driver(PROP, lines)
-        for line, ans, aft in zip(lines, model, after):
-            compare(res, line.split(' ', 1)[0], Toks(ans), aft)
+        ok, model = vlib.guarded(res, 'driver', None, vlib.run_driver, PROP, lines)
+        if ok:
+            for line, ans, aft in zip(lines, model, after):
+                vlib.guarded(res, 'compare', aft[1], compare, res, line.split(' ', 1)[0], Toks(ans), aft)
+    vlib.finish_guard(res)
     return res
 
 
@@ -971,24 +1077,36 @@ def compare(res, verb, t, aft):
 
 
 def search(ctx, broken):
-    """something no longer checks: look for a failing input with the oracle alone on a larger sample"""
+    """something no longer checks: look for a failing input with the oracle alone on a larger sample (same per-case guards)"""
     return corr(ctx, oracle_only=True, scale=3)
 
 
 def replay(ctx, entry):
     v = entry.get('violation') or {}
     c = v.get('case') or {}
-    kind, args = c.get('chk'), c.get('args')
+    if isinstance(c, dict) and 'chk' not in c and isinstance(c.get('case'), dict):
+        c = c['case']                      # case recorded by vlib.guarded: {'case': ..., 'raised_at': ...}
+    kind, args = (c.get('chk'), c.get('args')) if isinstance(c, dict) else (None, None)
     if kind in CHECKS:
-        out = CHECKS[kind](args)
+        try:
+            out = CHECKS[kind](args)
+        except Exception as e:
+            import traceback
+            tb = traceback.format_exc()
+            print('   the case raised %s: %s' % (type(e).__name__, e))
+            print('   ' + '\n   '.join(tb.strip().splitlines()[-4:]))
+            return False
         for key, what, obs, req in out:
             print('  ', key, what, obs, req)
         return not out
-    # history sequences and the coupled run are determined by the seeded generator: redo the oracle for that seed / tier
-    # and see whether the same violation key comes back
+    # anything else: redo the oracle for that seed / tier and see whether the same violation key comes back
     c2 = vlib.Ctx(PROP, entry.get('tier', 'quick'), int(entry.get('seed', 0)))
     c2.driver_ok = False
-    r = corr(c2, oracle_only=True)
+    try:
+        r = corr(c2, oracle_only=True)
+    except Exception as e:
+        print('   the oracle run raised %s: %s' % (type(e).__name__, e))
+        return False
     bad = [x for x in r.violations if x['key'] == v.get('key')] if v.get('key') else r.violations
     for x in bad[:5]:
         print('  ', x['key'], x['what'], x['observed'], x['required'])
